@@ -13,9 +13,22 @@ package pattern
 //@   ensures result1 == nil ==> len(result0) <= len(s)
 //@   ensures result1 != nil ==> len(result0) == 0
 //@   ensures mode&Suffix != 0 && mode&Prefix != 0 ==> result1 == NoMatch
-//@   loop "for mode&Smallest != 0 && mode&Suffix != 0" invariant len(m) == 2 && len(m[0]) <= len(s) && len(m[1]) <= len(s#0)
+//@   loop "for _, pat := range patterns" invariant len(rv) <= len(s)
 
+// The shortest-suffix search restarts one character further right each
+// time: it stays inside the subject and terminates.
+//@ func match
+//@   ensures result1 == nil ==> len(result0) <= len(s)
+//@   ensures result1 != nil ==> len(result0) == 0
+//@   loop "for mode&Smallest != 0 && mode&Suffix != 0" invariant len(m) == 2 && len(m[0]) <= len(s) && len(m[1]) <= len(s#0)
+//@   loop "for mode&Smallest != 0 && mode&Suffix != 0" decreases[C12] len(m[0])
+
+// Both loops of the translation consume at least one byte of the pattern
+// per iteration: it terminates on arbitrary bytes, valid UTF-8 or not.
 //@ func compile
+//@   loop `for pat != ""` decreases[C12] len(pat)
+//@   loop "for" invariant 0 <= w && w <= len(pat) && (w == 0 ==> r == 65533)
+//@   loop "for" decreases[C12] len(pat)
 //@   ensures result1 == nil ==> result0 != nil
 // The translation emits exactly one capture group; that the compiled
 // expression then reports one sub-expression is a fact about package regexp.
@@ -25,4 +38,5 @@ package pattern
 //@   requires rx != nil && fn != nil
 
 //@ func indexSep
+//@   loop "for" decreases[C16] len(pat)
 //@   ensures (result0 == -1 && result1 == 0) || (0 <= result0 && 1 <= result1 && result1 <= 2 && result0 + result1 <= len(pat))
